@@ -187,6 +187,7 @@ func c16Scenario() *Scenario {
 	g := BaseGenesis(
 		mc.AcctSpec{Name: "S1", Coins: Coins(1000, 0)}, mc.AcctSpec{Name: "S2", Coins: Coins(1000, 0)}, mc.AcctSpec{Name: "P1", Coins: Coins(1000, 0)},
 		mc.AcctSpec{Name: "W1", Coins: Rich()}, mc.AcctSpec{Name: "A", Coins: Rich()}, mc.AcctSpec{Name: "R1", Coins: Coins(1000, 0)},
+		mc.AcctSpec{Name: "O", Coins: Rich()},
 	)
 	g.Whitelist = []string{"P1"}
 	s := &Scenario{Name: "params-live", Genesis: g, KeyTimeNs: false, Visit: feeProbe, AfterTx: streamConservation}
@@ -205,6 +206,11 @@ func c16Scenario() *Scenario {
 		regAct(model.WrkReg, "W1", []string{"chain-a", "Chain", "0xgen", "geth"}, 2),
 		wrecAct("wrec(W1,#1,next)", "W1", 1, func(l uint64) uint64 { return l + 1 }),
 		purAct("wpur(W1,#1,1)", model.WrkPur, "W1", 1, 1, ""), purAct("wpur(W1,#1,3)", model.WrkPur, "W1", 1, 3, ""),
+		// the BEACON side of the limits, with purchases that do not pass the ante check (nested in authz MsgExec)
+		regAct(model.BcnReg, "W1", []string{"beacon-a", "Beacon"}, 2),
+		purAct("bpur(W1,#1,2)", model.BcnPur, "W1", 1, 2, ""),
+		purAct("exec(O,bpur(W1,#1,1))", model.BcnPur, "W1", 1, 1, "O"), purAct("exec(O,wpur(W1,#1,1))", model.WrkPur, "W1", 1, 1, "O"),
+		gov2("gov(bcn:default=1;max=3)", model.BcnParams, anch(31, 5, 7, 1, 3)),
 		{Name: "create(A->R1,600nund@10)", Dt: ms, Txs: tx1(model.Msg{Kind: model.StrCreate, From: "A", To: "R1", Den: mc.Nund, Amt: "600", Rate: 10})},
 		{Name: "claim(R1<-A)", Dt: ms, Txs: tx1(model.Msg{Kind: model.StrClaim, From: "R1", To: "A"})},
 		{Name: "wait(30s)", Dt: 30 * time.Second, Enabled: func(m *model.State, _ map[string]int) bool { return elapsed(m) < 200 }},
@@ -229,8 +235,13 @@ func c16Scenario() *Scenario {
 		gov2("gov(stream:fee=0)", model.StrParams, "0.000000000000000000"),
 		gov2("gov(stream:fee=1+1e-18,INVALID)", model.StrParams, "1.000000000000000001"),
 	}
+	gr := Action{Name: "grant(W1->O,wpur+bpur)", Dt: ms, PrefixOnly: true, Txs: func(*model.State) []model.Tx {
+		return []model.Tx{{Msgs: []model.Msg{{Kind: model.AuthzGrant, From: "W1", To: "O", URL: model.WrkPur}, {Kind: model.AuthzGrant, From: "W1", To: "O", URL: model.BcnPur}}}}
+	}}
+	s.Actions = append(s.Actions, gr)
+	s.Prefix = []string{gr.Name}
 	// behaviour that must follow the new values is attributed to C16 only on paths that contain an update
-	follow := []string{"ent.order", "anch.limit", "anch.storage", "tx.accept_unexpected:wrk.pur", "tx.reject_unexpected:wrk.pur", "str.feesplit", "tx.accept_unexpected:ent.decide", "tx.reject_unexpected:ent.decide"}
+	follow := []string{"ent.order", "anch.limit", "anch.storage", "tx.accept_unexpected:wrk.pur", "tx.reject_unexpected:wrk.pur", "tx.accept_unexpected:bcn.pur", "tx.reject_unexpected:bcn.pur", "str.feesplit", "tx.accept_unexpected:ent.decide", "tx.reject_unexpected:ent.decide"}
 	s.PostProcess = func(e *Exec, discs []Disc) []Disc {
 		if e.Aux["gov"] < 1 {
 			return discs
